@@ -7,7 +7,8 @@ Coverage (property clause -> stream):
   ... on a CQM, in place                     cqm_inplace (fix_variable one by one), cqm_inplace_many (fix_variables(inplace=True))
   ... on a CQM, new model                    cqm_copy (fix_variables(inplace=False)); receiver compared with a deep copy, and the
                                              result is edited afterwards to show it shares no state with the receiver ("alias")
-  `fixed` argument forms                     "fix_form": dict / list of pairs / generator of pairs (CQM), dict / list (BQM, QM)
+  `fixed` argument forms                     "fix_form": dict / list of pairs / one-shot generator, zip, list iterator - for CQM (both
+                                             paths) and for BQM (3 dtypes, through views) / QM fix_variables alike
   rarely used keyword                        the deprecated `cascade=` of CQM.fix_variable(s) ("cascade_kw"), legacy {} return value
   nothing fixed                              nf = 0 (all kinds except the one-by-one path, where it is the empty loop)
   every variable (of an expression) fixed    nf up to n; expressions keep a random 70% of the variables
@@ -119,7 +120,7 @@ def gen_case(rng, tier):
     chosen = rng.sample(allvars, nf)
     fixes = [[v[0], rand_value(rng, v[1])] for v in chosen]
     c = {"kind": kind, "exprs": exprs, "allvars": allvars, "fixes": fixes,
-         "fix_form": rng.choice(['dict', 'dict', 'pairs', 'gen'])}
+         "fix_form": rng.choice(['dict', 'dict', 'pairs', 'gen', 'zip', 'iter'])}
     if kind == 'qm':
         c["qdtype"] = qdtype
     if kind.startswith('cqm'):
@@ -228,6 +229,15 @@ def raw_mcqm(cqm, labels):
     return "(Expr.mkM %s %s %s)" % (info, raw_mexpr(cqm.objective), clist(cons))
 
 
+def one_shot(form, fixes):
+    """`fixed` as an iterable that can be walked only once: generator / zip of labels and values / list iterator"""
+    if form == 'zip':
+        return zip([l for l, _ in fixes], [v for _, v in fixes])
+    if form == 'iter':
+        return iter(list(fixes))
+    return (f for f in list(fixes))
+
+
 def run_poly_composite(c, fixes, feats):
     """PolyFixedVariableComposite(ExactPolySolver()).sample_poly(poly, fixed_variables=...)"""
     T = LabelTable()
@@ -296,10 +306,15 @@ def run_case(c):
             feats["via_view"] = True
         before = [gen.observe(handle)]
         vars_before = list(m.variables)
-        if len(fixes) == 1:
+        form = c.get("fix_form", 'dict')
+        feats["fix_form"] = form
+        if form in ('gen', 'zip', 'iter'):
+            # one-shot iterables of pairs (a documented form of `fixed`), also for a single / no assignment
+            handle.fix_variables(one_shot(form, fixes))
+        elif len(fixes) == 1:
             handle.fix_variable(*fixes[0])
         else:
-            handle.fix_variables(dict(fixes) if len(fixes) % 2 else fixes)
+            handle.fix_variables(dict(fixes) if form == 'dict' else list(fixes))
         after = [gen.observe(handle)]
         want = [v for v in vars_before if v not in dict(fixes)]
         if list(m.variables) != want:
@@ -316,7 +331,7 @@ def run_case(c):
         form = c.get("fix_form", 'dict')
         feats["fix_form"] = form
         feats["expr_shuffled"] = any(e.get("shuffled") for e in c["exprs"])
-        arg = dict(fixes) if form == 'dict' else (list(fixes) if form == 'pairs' else (f for f in list(fixes)))
+        arg = dict(fixes) if form == 'dict' else (list(fixes) if form == 'pairs' else one_shot(form, fixes))
         # the deprecated `cascade` keyword (does nothing but warn) is passed now and then
         kw = {} if (len(fixes) + len(labels)) % 4 else {"cascade": bool(len(labels) % 2)}
         feats["cascade_kw"] = bool(kw)
